@@ -28,7 +28,8 @@ LEVEL_TEXT = ("Generated stopping games (3-14 states, most with several dead suc
               "pruning modes; probabilities/rewards compared up to the permutation within 2 x threshold x (T+1), "
               "strategies up to the renaming with transformed order, solvability equal. Exploration; needs no oracle, so "
               "it also covers games too large for exact solving."
-              ' Added while validating sensitivity: on generated games every state is compared (not only those reachable from the initial state); medium-size games of 20-300 states.')
+              ' Added while validating sensitivity: on generated games every state is compared (not only those reachable from the initial state); medium-size games of 20-300 states.'
+              ' Later rounds: twin swaps, corridors, rounding-boundary triples in all orders, rings numbered with and against the direction of travel (1 400 against 28 000 sweeps), an eleven-entry chance row in eight orders.')
 LEVEL_NOTE = ("Trusted: the transformation code in props/c13.py. The two diagnostic vectors are NOT part of the relation "
               "(the statement does not name them and they legitimately follow the last of several reward-equal "
               "successors). Near-tie strategy differences are attributed to known finding K1 by signature.")
